@@ -381,7 +381,13 @@ void genTops(Rng& rng, CaseSpec& cs, int nx, int ny, int nz, bool gaps) {
         if (g > 0) cs.gapped = true;
         tops[k * area + c] = tops[(k - 1) * area + c] + dz[(k - 1) * area + c] + g;
     }
-    if (gaps && !cs.gapped && nz > 1) { for (size_t c = area; c < vol; ++c) tops[c] += 2.5; cs.gapped = true; }   // one gap below the top layer, everything deeper moves along
+    if (gaps && !cs.gapped && nz > 1) {
+        // no gap drawn: open one below the top layer and stack the deeper layers again (same expression as above, so that
+        // bottom of layer k and top of layer k+1 stay the same double)
+        for (size_t c = 0; c < area; ++c) tops[area + c] += 2.5;
+        for (int k = 2; k < nz; ++k) for (size_t c = 0; c < area; ++c) tops[k * area + c] = tops[(k - 1) * area + c] + dz[(k - 1) * area + c];
+        cs.gapped = true;
+    }
     // model
     std::vector<double> X(nx + 1, 0.0), Y(ny + 1, 0.0);
     for (int i = 0; i < nx; ++i) X[i + 1] = X[i] + dxv[i];
@@ -984,6 +990,7 @@ void checkEgrid(Monitor& m, Rng& rng, const CaseSpec& cs, const Opm::EclipseGrid
         const double ft = formatted ? m.FTOL_FORMATTED : m.FTOL;
         // derived x/y positions also carry the error of the depths along a tilted pillar: largest coordinate magnitude as scale
         const double dscale[3] = {refSI.smax(), refSI.smax(), refSI.scale[2]};
+        mkdir(m.rep.args.out.c_str(), 0755); mkdir(dir.c_str(), 0755);   // survive a foreign clean-up of the work directory
         std::remove(file.c_str());
         m.rep.cover("egrid", combo);
         try {
